@@ -86,6 +86,15 @@ def coverage_tests(fn, base):
                 raise TranslateError("chained comparison on %s.coverage" % base)
             t = (_op(n.ops[0]), _num(n.comparators[0]))
             (keep if t[0] in ("CGt", "CGe") else warn).append(t)
+    if not keep and warn:
+        # the kept rows may be written as the complement of the warning mask:  m = <base>.coverage < c ; ... [~m]
+        masks = {n.targets[0].id for n in ast.walk(fn) if isinstance(n, ast.Assign) and isinstance(n.targets[0], ast.Name)
+                 and isinstance(n.value, ast.Compare) and _is_attr(n.value.left, base, "coverage")}
+        inverted = {n.operand.id for n in ast.walk(fn) if isinstance(n, ast.UnaryOp) and isinstance(n.op, ast.Invert)
+                    and isinstance(n.operand, ast.Name)}
+        if masks & inverted:
+            comp = {"CLt": "CGe", "CLe": "CGt"}
+            keep = [(comp[t[0]], t[1]) for t in warn if t[0] in comp]
     if not keep or not warn:
         raise TranslateError("%s.coverage: keep / warn tests not found" % base)
     return _same(keep, base + ".coverage keep test"), _same(warn, base + ".coverage warning test")
